@@ -276,6 +276,9 @@ def derived_check(case):
             ns = NSS[pi % len(NSS)]
             items = synth.meta_items(kind, sites, ns, stream=stream, fs=fs, gains=gains, vrange=vr, maxint=mi, nsync=nsync,
                                      encoding="geom" if (pi % 2 and fam != "NPultra") else "shank")
+            if pi % 3 == 1:
+                # the duration as acquisition software writes it: a few decimals only (the product with the rate is then off an integer by up to 0.015 sample)
+                items = [(a, ("%.6f" % (ns / fs)) if a == "fileTimeSecs" else b) for a, b in items]
             fmeta = os.path.join(d, "drv_g0_t0.imec0.%s.meta" % stream)
             with open(fmeta, "w") as f:
                 f.write(synth.meta_text(items))
@@ -314,6 +317,8 @@ def derived_check(case):
             ns = NSS[gi % 4]
             vr = (5, 2, 10, 1)[gi]
             items = synth.nidq_items(ns, mn=mn, ma=ma, xa=xa, dw=dw, fs=fs, mngain=gmn, magain=gma, vrange=vr)
+            if gi % 2 == 0:
+                items = [(a, ("%.6f" % (ns / fs)) if a == "fileTimeSecs" else b) for a, b in items]      # duration with a few decimals
             fmeta = os.path.join(d, "drv_g0_t0.nidq.meta")
             with open(fmeta, "w") as f:
                 f.write(synth.meta_text(items))
